@@ -395,7 +395,7 @@ def follow_up(c):
 
 def main():
     run = O.Run("c09_adversarial")
-    N = run.budget(3, 25)
+    N = run.budget(3, 10)
     run.scope = ("%d seeded small valid collections (all eight tables populated): (a) every Tree/TreeSequence accessor, "
                  "seek, statistic, subset/simplify/ibd/link_ancestors entry with ids in {-2,-1,0,n-1,n,n+1,2^31-1,2^31,"
                  "2^32,2^32+1,2^63,2^64}, positions/windows with -1, L, L+1, nan, inf, empty/duplicate lists; (b) each "
